@@ -12,6 +12,7 @@ THEOREMS = [_T + n for n in [
     "multipart_trailing_backslash_fixed", "multipart_trailing_backslash_recovered", "limits_exact",
     "multipart_disposition2231_recovered", "multipart_roundtrip_2231", "limits_exact_2231",
     "urlencoded_utf8_names_mojibake", "urlencoded_utf8_roundtrip_partial", "urlencoded_utf8_roundtrip_refuted",
+    "urlencoded_names_latin1", "urlencoded_wide_name_unrecoverable",
     "multipart_roundtrip_prefilled", "multipart_roundtrip_2231_prefilled",
     "multipart_inner_exceptions", "multipart_inner_unicode_error", "part_headers_never_keyerror", "parse_body_outcomes",
 ]]
@@ -52,7 +53,8 @@ CLAUSES = {
         "characters included; same side condition), multipart_disposition2231_recovered (_parse_header level)",
     "urlencoded forms are recovered exactly": "urlencoded_roundtrip, urlencoded_roundtrip_entry (names sent as latin-1 bytes); names sent the standard "
         "way, as UTF-8: urlencoded_utf8_roundtrip_partial (ASCII names) — the full clause is FALSE for non-ASCII names, "
-        "urlencoded_utf8_roundtrip_refuted / urlencoded_utf8_names_mojibake (known finding urlencoded/lossy/non-ascii-name-utf8: "
+        "urlencoded_utf8_roundtrip_refuted / urlencoded_utf8_names_mojibake; urlencoded_names_latin1 / urlencoded_wide_name_unrecoverable: no body at "
+        "all yields a name with a character above U+00FF (known finding urlencoded/lossy/non-ascii-name-utf8: "
         "parse_qs_bytes reads names as latin-1, documented)",
     "any other body succeeds or raises HTTPInputError, never another exception": "only_input_error, parse_body_outcomes (entry: result / "
         "HTTPInputError / model gives up); multipart_inner_exceptions + multipart_inner_unicode_error + part_headers_never_keyerror (what the "
